@@ -3,7 +3,7 @@
 // patterns with GRAPH <iri> / GRAPH ?g blocks (WHERE evaluated once on the pre-operation dataset by brute-force
 // join, template quads with an unbound variable skipped, all deletions before all insertions, counts = quads
 // that actually changed, graph identities created by inserts and never removed by deletes) is run side by side
-// with execute_sparql_update over every sequence of <= 3 (thorough: 4) operations out of 25, from 2 initial
+// with execute_sparql_update over every sequence of <= 3 (thorough: 4) operations out of 29, from 2 initial
 // datasets; after every step the whole dataset (all graphs), the graph catalog and the reported counts are compared.
 use kolibrie::execute_query::execute_sparql_update;
 use kolibrie::sparql_database::SparqlDatabase;
@@ -61,6 +61,11 @@ fn ops() -> Vec<Op> {
         /*22*/ m(Form::Modify, vec![], vec![pat(G::Default, V("s"), V("o"), V("s")), pat(G::Default, V("s"), q(), V("o"))], vec![pat(G::Default, V("s"), p(), V("o"))]),
         /*23*/ m(Form::DeleteData, vec![pat(G::Default, I("a"), p(), I("b")), pat(G::Default, I("a"), p(), I("b")), pat(G::Default, I("a"), p(), L("lit"))], vec![], vec![]),
         /*24*/ m(Form::Modify, vec![pat(G::Default, V("s"), p(), V("o"))], vec![pat(G::Var("o"), V("s"), p(), V("o"))], vec![pat(G::Default, V("s"), p(), V("o"))]),
+        // DELETE WHERE with a repeated variable and with a two-pattern join (every pattern is also a delete template)
+        /*25*/ m(Form::InsertData, vec![], vec![pat(G::Default, I("a"), p(), I("a")), pat(G::Iri("g1"), I("b"), p(), I("b")), pat(G::Default, I("b"), p(), I("a"))], vec![]),
+        /*26*/ m(Form::DeleteWhere, vec![], vec![], vec![pat(G::Default, V("s"), p(), V("s"))]),
+        /*27*/ m(Form::DeleteWhere, vec![], vec![], vec![pat(G::Default, V("s"), p(), V("o")), pat(G::Default, V("o"), p(), V("z"))]),
+        /*28*/ m(Form::DeleteWhere, vec![], vec![], vec![pat(G::Var("g"), V("s"), p(), V("s")), pat(G::Default, V("s"), p(), V("o"))]),
         /*19*/ u(vec![], vec![pat(G::Iri("g3"), V("s"), p(), V("o")), pat(G::Iri("g3"), V("s"), q(), V("z"))], vec![pat(G::Default, V("s"), p(), V("o"))], vec![pat(G::Iri("g1"), V("s"), p(), V("z"))]),
     ]
 }
